@@ -5,6 +5,7 @@ package checks
 import (
 	"fmt"
 	"math/rand"
+	"time"
 
 	"verif/internal/core"
 	"verif/internal/eng"
@@ -81,5 +82,75 @@ func c09MixedStream(ctx *core.Ctx) {
 		}
 		ctx.Count("mixed.deliveries_checked", int64(len(res.Dels)))
 		ctx.Case("c09mixed"+c.SQL+core.J(c.Rows), len(res.Dels) >= 2, nil)
+	})
+}
+
+// c09ttl: WITH (STATETTL=...) on a counting window reaps keys that have been IDLE for the TTL.  Three keys each
+// receive a row every 150 ms (TTL 1 s) and need longer than the TTL plus a reaper tick to fill one batch: they
+// were never idle, so each fires once over exactly its first N rows.
+func c09TTLStream(ctx *core.Ctx) {
+	n := ctx.N(2, 8)
+	ctx.Cases("c09ttl", n, 8, func(i int, r *rand.Rand) {
+		need := 12 + r.Intn(4)
+		keys := []string{"a", "b", "c"}
+		c := &c09MixedCase{CaseRef: core.CaseRef{Stream: "c09ttl", Index: i}, N: need}
+		c.SQL = fmt.Sprintf("SELECT k, count(*) AS c, collect(id) AS ids, sum(v) AS s FROM stream GROUP BY k, CountingWindow(%d) WITH (STATETTL='1s')", need)
+		attrs := map[string]string{"key_shape": "one_text_column", "ncols": "1", "state_ttl": "1s"}
+		viol := func(kind, detail string) {
+			ctx.Violate(core.Violation{Kind: kind, Attrs: attrs, Detail: detail + "\n  sql: " + c.SQL, Case: c})
+		}
+		s, err := eng.New(c.SQL, eng.Opts{})
+		if err != nil {
+			viol("counting.execute_error", err.Error())
+			return
+		}
+		rec := eng.Attach(s)
+		defer s.Stop()
+		last := time.Now()
+		var maxGap time.Duration
+		want := map[string][]int{}
+		id := 0
+		for j := 0; j < need+2; j++ {
+			for _, k := range keys {
+				id++
+				if j < need {
+					want[k] = append(want[k], id)
+				}
+				rec.Emit(Row{"id": id, "k": k, "v": 1})
+				time.Sleep(50 * time.Millisecond)
+				if g := time.Since(last); g > maxGap {
+					maxGap = g
+				}
+				last = time.Now()
+			}
+		}
+		if maxGap > 250*time.Millisecond {
+			ctx.Inconclusive("c09ttl: the producer itself paused for longer than the harness allows (loaded machine)")
+			return
+		}
+		rec.WaitDeliveries(len(keys), 3*time.Second)
+		rec.Quiesce(3, 100*time.Millisecond, 5*time.Second)
+		dels := rec.Deliveries()
+		ctx.Count("ttl.active_key_runs", 1)
+		got := map[string][]int{}
+		for _, d := range dels {
+			for _, out := range d.Rows {
+				k, _ := out["k"].(string)
+				ids, _ := idList(out["ids"])
+				if _, dup := got[k]; dup {
+					viol("counting.wrong_rows", fmt.Sprintf("key %q delivered twice within %d rows per key, N=%d: %v", k, need+2, need, dels))
+					return
+				}
+				got[k] = ids
+			}
+		}
+		for _, k := range keys {
+			if fmt.Sprint(got[k]) != fmt.Sprint(want[k]) {
+				viol("counting.active_key_state_lost", fmt.Sprintf("key %q received a row every 150 ms (largest producer pause %v, STATETTL 1s): its first result must hold ids %v, got %v; deliveries: %v", k, maxGap, want[k], got[k], dels))
+				return
+			}
+		}
+		ctx.Case(fmt.Sprintf("c09ttl|%d", need), true, nil)
+		ctx.Distinct(fmt.Sprintf("c09ttl-run-%d", i))
 	})
 }
